@@ -84,6 +84,8 @@ Defs == [
   K1  |-> [flavour |-> "dc_call",      module |-> "m1", py |-> "K1",  fields |-> << <<"n", P("int"), FALSE>>, <<"at", P("date"), FALSE>> >>],
   \* no class-level annotations: members come from the constructor's signature, one of them keyword-only
   G1  |-> [flavour |-> "sig",          module |-> "m1", py |-> "G1",  fields |-> << <<"a", P("int"), FALSE>>, <<"when", Opt(P("date")), TRUE>> >>],
+  \* a recursive class whose Python name is also a name the typing module exports (typing.Text is str)
+  R2  |-> [flavour |-> "dataclass",    module |-> "m1", py |-> "Text", fields |-> << <<"v", P("int"), FALSE>>, <<"nxt", Opt(Cls("R2")), TRUE>> >>],
   \* a second recursive class with the Python name of R1, in another module, with other field types
   R1b |-> [flavour |-> "dataclass",    module |-> "m2", py |-> "R1",  fields |-> << <<"v", P("str"), FALSE>>, <<"nxt", Opt(Cls("R1b")), TRUE>> >>]
 ]
